@@ -20,12 +20,15 @@ type Tr struct {
 	exec  map[string]bool
 	nw    int // points written so far (seq numbers 1..nw)
 	no    int64
+	// scan the published statistics for orphan input edges at the final observation
+	// (the scan walks every statistic of the process: only after a failed start and every 50th trace)
+	scan bool
 }
 
 // Begin starts a trace with the given task definitions (none started yet).
 func (w *World) Begin(t *rt.Trace, tasks map[string]Shape, mode string) *Tr {
 	w.trNo++
-	tr := &Tr{w: w, t: t, tasks: tasks, exec: map[string]bool{}, ids: rt.SortedKeys(tasks), no: int64(w.trNo)}
+	tr := &Tr{w: w, t: t, tasks: tasks, exec: map[string]bool{}, ids: rt.SortedKeys(tasks), no: int64(w.trNo), scan: w.trNo%50 == 0}
 	defs := rt.M{}
 	for id, s := range tasks {
 		defs[id] = s.Enc()
@@ -83,6 +86,7 @@ func (tr *Tr) Do(op Op) {
 		tr.t.Event("Lc", rt.M{"op": "start", "t": op.T, "ret": tr.start(op.T)})
 	case "startfail":
 		// StartTask of a task whose snapshot cannot be loaded: returns an error, the task is not executing
+		tr.scan = true
 		tr.w.snaps.setFail(op.T, true)
 		ret := tr.start(op.T)
 		tr.w.snaps.setFail(op.T, false)
@@ -146,7 +150,9 @@ func (tr *Tr) Sync() {
 
 // Obs logs everything the sinks of task id have seen since the trace began.
 // It is only called when the task is not executing (StopTask has drained it).
-func (tr *Tr) Obs(id string) {
+func (tr *Tr) Obs(id string) { tr.obs(id, false) }
+
+func (tr *Tr) obs(id string, final bool) {
 	s := tr.tasks[id]
 	sinks := make([]any, 0, len(s.Froms))
 	for k := range s.Froms {
@@ -169,7 +175,10 @@ func (tr *Tr) Obs(id string) {
 		}
 		sinks = append(sinks, arr)
 	}
-	edges, collected := orphan(id)
+	edges, collected := -1, int64(-1) // -1: not measured
+	if final && tr.scan {
+		edges, collected = orphan(id)
+	}
 	tr.t.Event("Obs", rt.M{"t": id, "sinks": sinks, "orphan_edges": edges, "orphan_collected": collected})
 }
 
@@ -182,7 +191,7 @@ func (tr *Tr) End() {
 		if tr.exec[id] {
 			tr.t.Event("Lc", rt.M{"op": "stop", "t": id, "ret": tr.stop("stop", id)})
 		}
-		tr.Obs(id)
+		tr.obs(id, true)
 	}
 	foreign := 0
 	for _, it := range tr.w.Env.Diag.SinkItems("fence") {
